@@ -79,6 +79,8 @@ fn dispatch(w: &[&str]) -> String {
         "fblk" => floatop::run(&w[1..]),
         "sink" => sinkop::run_raw(&w[1..]), "sinkenc" => sinkop::run_enc(&w[1..]), "sinkval" => sinkop::run_val(&w[1..]), "encseq" => sinkop::run_encseq(&w[1..]),
         "display" => dispop::run(&w[1..]),
+        "displayat" => dispop::run_at(&w[1..]),
+        "aiter" => decop::run_aiter(&w[1..]),
         "intconv" => intconv::run(&w[1..]),
         "seq" => decop::run_seq(&w[1..]),
         "size" => decop::run_size(&w[1..]),
